@@ -311,14 +311,24 @@ def bins_form(p, fb, J):
     counter J (0-based), count_ok(method, f, x) -> bool) or None when the construction is not one of
       * ``for k in range(1, n[, s]): bins = np.append(bins, term(k))``
       * ``np.array([term for ... in zip(edge / sample slices)])``."""
-    lps = [lp for lp in p.state.loops if lp['func'] == fb.key and 'bins' in lp['phi']]
+    def append_var(lp):
+        # the loop-carried variable that grows by one np.append per iteration, whatever it is called
+        for n, ph in lp['phi'].items():
+            for ends in lp['ends']:
+                v = ends.get(n)
+                va = v.single_atom() if isinstance(v, Poly) else None
+                if va is not None and is_app(va, 'append') and va[2][0] == ph:
+                    return n
+        return None
+    lps = [lp for lp in p.state.loops if lp['func'] == fb.key and append_var(lp) is not None]
     if len(lps) == 1:
         lp = lps[0]
+        acc = append_var(lp)
         it = lp['iter'].single_atom() if isinstance(lp['iter'], Poly) else None
-        phi = lp['phi']['bins']
+        phi = lp['phi'][acc]
         if len(lp['ends']) != 1 or it is None or not is_app(it, 'range'):
             return None
-        end = lp['ends'][0].get('bins')
+        end = lp['ends'][0].get(acc)
         ea = end.single_atom() if isinstance(end, Poly) else None
         if ea is None or not is_app(ea, 'append') or ea[2][0] != phi:
             return None
